@@ -196,7 +196,7 @@ theorem parse_no_raise (s : List Char) : ∃ r, parse s = .ok r := by
         simp only [pyInt, isDigitStr_single hx, isDigitStr_single hy, isDigitStr_single hz, if_true,
           bind, Except.bind]
         split
-        · exact ⟨_, rfl⟩
+        · split <;> exact ⟨_, rfl⟩
         · rename_i hnd
           cases hd with
           | nil => exact absurd (isDigitStr_single hz) hnd
@@ -260,7 +260,8 @@ theorem parse_str (r : Raw) (h : WellFormed r) : parse (str r) = .ok (some r) :=
     bind, Except.bind, parseNat_natStr]
   cases hp : r.patch with
   | nil =>
-    simp only [List.append_nil, isDigitStr_natStr, if_true, parseNat_natStr]
+    simp only [List.append_nil, isDigitStr_natStr, if_true, parseNat_natStr, bne_self_eq_false,
+      Bool.false_eq_true, if_false]
     cases r; simp_all
   | cons p0 ps =>
     have h3 := h.2.2 (by rw [hp]; simp)
@@ -327,15 +328,110 @@ theorem str_roundtrip (r : Raw) (h : WellFormed r) : construct (str r) = .ok r :
 example : WellFormed ⟨1, 0, 1, ['a']⟩ := by decide
 example : WellFormed ⟨1, 0, 10, []⟩ := by decide
 
-/-- DEFECT (C11): `LegacyOpensslVersion("1.0.05")` is accepted (`startswith("1.0.0")`), its value
-is `(1, 0, 5, '')`, it prints as `1.0.5`, and `LegacyOpensslVersion("1.0.5")` is an
-`InvalidVersion`: printing does not round-trip, the constructor does not establish
-`WellFormed`.  (Same for `OpensslVersion`.) -/
-theorem str_roundtrip_counterexample :
-    construct "1.0.05".toList = .ok ⟨1, 0, 5, []⟩ ∧
-    str ⟨1, 0, 5, []⟩ = "1.0.5".toList ∧
-    construct "1.0.5".toList = .error .invalid := by
-  refine ⟨?_, ?_, ?_⟩ <;> rfl
+/-! ### every constructed value is well-formed -/
+
+theorem natStr_single {x : Char} (hx : x.isDigit = true) : natStr (parseNat [x]) = [x] := by
+  apply Semver.natStr_parseNat [x] (isDigitStr_single hx)
+  by_cases h0 : x = '0'
+  · subst h0; rfl
+  · simp [Semver.hasLeadingZero, h0]
+
+theorem parseNat_single_lt {x : Char} (hx : x.isDigit = true) : parseNat [x] < 10 := by
+  have h' := Char.isDigit_iff_toNat.mp hx
+  simp only [Char.reduceToNat] at h'
+  show Nat.ofDigitChars 10 [x] 0 < 10
+  rw [Nat.ofDigitChars_cons]
+  show 10 * 0 + (x.toNat - 48) < 10
+  omega
+
+theorem normalize_no_space (s : List Char) : ∀ c ∈ Semver.normalize s, isPySpace c = false := by
+  intro c hc
+  have h1 : c ∈ Semver.removeSpaces s := (List.dropWhile_sublist _).subset hc
+  have := (List.mem_filter.mp h1).2
+  simpa using this
+
+/-- what `parse` returns on a string without blanks is well-formed -/
+theorem parse_wf (n : List Char) (r : Raw) (hsp : ∀ c ∈ n, isPySpace c = false)
+    (h : parse n = .ok (some r)) : WellFormed r := by
+  unfold parse at h
+  split at h
+  · cases h
+  · rename_i hpre
+    have h2 : legacyBases.any (fun b => b.isPrefixOf n) = true := by
+      cases e : legacyBases.any (fun b => b.isPrefixOf n) <;> simp_all
+    obtain ⟨b, hb, hp⟩ := List.any_eq_true.mp h2
+    obtain ⟨x, y, z, rfl, hx, hy, hz⟩ := baseShape_elim (legacyBases_shape b hb)
+    obtain ⟨t, rfl⟩ := List.isPrefixOf_iff_prefix.mp hp
+    obtain ⟨hd, tl, e⟩ := splitOn_base x y z t hx hy hz
+    simp only [List.cons_append, List.nil_append] at e h hsp
+    have hseg : ∀ c ∈ z :: hd, c ∈ x :: '.' :: y :: '.' :: z :: t ∧ c ≠ '.' :=
+      Semver.mem_splitOn '.' _ (z :: hd) (by rw [e]; simp)
+    rw [e] at h
+    cases tl with
+    | cons _ _ => cases h
+    | nil =>
+      simp only [pyInt, isDigitStr_single hx, isDigitStr_single hy, isDigitStr_single hz, if_true,
+        bind, Except.bind] at h
+      split at h
+      · split at h
+        · cases h
+        · rename_i hdig hcan
+          have hcan' : natStr (parseNat (z :: hd)) = z :: hd := by simpa using hcan
+          simp only [Except.ok.injEq, Option.some.injEq] at h
+          subst h
+          refine ⟨?_, ?_, ?_⟩
+          · refine List.any_eq_true.mpr ⟨_, hb, ?_⟩
+            simp only [coreStr, natStr_single hx, natStr_single hy, hcan']
+            exact List.isPrefixOf_iff_prefix.mpr ⟨hd, rfl⟩
+          · intro c hc; cases hc
+          · intro hne; exact absurd rfl hne
+      · cases hd with
+        | nil => cases h
+        | cons p0 ps =>
+          simp only [List.drop_succ_cons, List.drop_zero] at h
+          split at h
+          · cases h
+          · rename_i hp0
+            simp only [Except.ok.injEq, Option.some.injEq] at h
+            subst h
+            refine ⟨?_, ?_, ?_⟩
+            · refine List.any_eq_true.mpr ⟨_, hb, ?_⟩
+              simp only [coreStr, natStr_single hx, natStr_single hy, natStr_single hz]
+              exact List.isPrefixOf_iff_prefix.mpr ⟨[], rfl⟩
+            · intro c hc
+              have := hseg c (by simp only [List.mem_cons] at hc ⊢; exact Or.inr hc)
+              exact ⟨hsp c this.1, this.2⟩
+            · intro _
+              refine ⟨parseNat_single_lt hz, ?_⟩
+              intro c hc
+              simp only [List.head?_cons, Option.mem_def, Option.some.injEq] at hc
+              subst hc; simpa using hp0
+
+/-- C11: every `LegacyOpensslVersion(string)` value is well-formed … -/
+theorem construct_wf (s : List Char) (r : Raw) (h : construct s = .ok r) : WellFormed r := by
+  unfold construct at h
+  simp only [bind, Except.bind] at h
+  split at h
+  · cases h
+  · split at h
+    · cases h
+    · split at h
+      · cases h
+      · rename_i o ho
+        cases o with
+        | none => cases h
+        | some v =>
+          simp only [Except.ok.injEq] at h
+          subst h
+          exact parse_wf _ _ (normalize_no_space s) ho
+
+/-- … hence prints to a string that constructs the same value -/
+theorem construct_roundtrip (s : List Char) (r : Raw) (h : construct s = .ok r) :
+    construct (str r) = .ok r :=
+  str_roundtrip r (construct_wf s r h)
+
+/-- the formerly accepted `1.0.05` (it printed as the invalid `1.0.5`) is now rejected -/
+example : construct "1.0.05".toList = .error .invalid := by rfl
 
 end Legacy
 
@@ -618,9 +714,73 @@ theorem str_roundtrip (r : Raw) (h : WellFormed r) : construct (str r) = .ok r :
 example : WellFormed (.modern ⟨3, 0, 7, ["beta".toList, "1".toList], []⟩) := by decide
 
 /-- every 3.x value the constructor returns prints to a string that constructs it again
-(the legacy branch does not: `Legacy.str_roundtrip_counterexample`) -/
+(see `construct_wf` for both branches) -/
 theorem modern_wellFormed_of_semver (s : List Char) (v : Semver.Raw)
     (h : Semver.construct s = .ok v) (h3 : 3 ≤ v.major) : WellFormed (.modern v) :=
   ⟨Semver.constructWith_wellFormed false s v h, h3⟩
+
+/-! ### every constructed `OpensslVersion` value is well-formed -/
+
+theorem normalize_idem (s : List Char) : Semver.normalize (Semver.normalize s) = Semver.normalize s := by
+  have hf : Semver.removeSpaces (Semver.normalize s) = Semver.normalize s := by
+    unfold Semver.removeSpaces
+    rw [List.filter_eq_self]
+    intro c hc; simp [Legacy.normalize_no_space s c hc]
+  show Semver.lstripV (Semver.removeSpaces (Semver.normalize s)) = _
+  rw [hf]
+  exact Semver.dropWhile_idem _ _
+
+theorem buildValue_cases (n : List Char) (r : Raw) (h : buildValue n = .ok (some r)) :
+    (∃ v, r = .legacy v ∧ Legacy.construct n = .ok v) ∨
+    (∃ v, r = .modern v ∧ isValidNew n = true ∧ Semver.construct n = .ok v) := by
+  unfold buildValue at h
+  simp only [bind, Except.bind] at h
+  split at h
+  · cases h
+  · split at h
+    · split at h
+      · cases h
+      · rename_i v hv
+        simp only [Except.ok.injEq, Option.some.injEq] at h
+        exact Or.inl ⟨v, h.symm, hv⟩
+    · split at h
+      · rename_i hnew
+        split at h
+        · cases h
+        · rename_i w hw
+          obtain ⟨v', hv', e⟩ := liftSemver_ok hw
+          simp only [Except.ok.injEq, Option.some.injEq] at h
+          subst h
+          exact Or.inr ⟨v', e, hnew, hv'⟩
+      · cases h
+
+theorem semver_construct_coerce (n : List Char) (v : Semver.Raw) (hn : Semver.normalize n = n)
+    (h : Semver.construct n = .ok v) : Semver.coerce n = some v := by
+  unfold Semver.construct Semver.constructWith at h
+  simp only [hn, Semver.isValid, Semver.buildValue, Bool.false_eq_true, if_false] at h
+  split at h
+  · cases h
+  · split at h
+    · rename_i w hw; cases h; exact hw
+    · cases h
+
+/-- C11: every `OpensslVersion(string)` value is well-formed … -/
+theorem construct_wf (s : List Char) (r : Raw) (h : construct s = .ok r) : WellFormed r := by
+  have hb := construct_buildValue s r h
+  rcases buildValue_cases _ r hb with ⟨v, rfl, hv⟩ | ⟨v, rfl, hnew, hv⟩
+  · rw [Legacy.construct, normalize_idem] at hv
+    exact Legacy.construct_wf s v hv
+  · refine ⟨Semver.constructWith_wellFormed false _ v hv, ?_⟩
+    have hc := semver_construct_coerce _ v (normalize_idem s) hv
+    unfold isValidNew at hnew
+    rw [hc] at hnew
+    split at hnew
+    · simpa using hnew
+    · cases hnew
+
+/-- … hence prints to a string that constructs the same value -/
+theorem construct_roundtrip (s : List Char) (r : Raw) (h : construct s = .ok r) :
+    construct (str r) = .ok r :=
+  str_roundtrip r (construct_wf s r h)
 
 end Univers.Openssl
